@@ -783,3 +783,12 @@ func sortedKeys[M ~map[string]V, V any](m M) []string {
 	sort.Strings(out)
 	return out
 }
+
+func revertParams(r RevertRequest) ledgercontroller.Parameters[ledgercontroller.RevertTransaction] {
+	md := metadata.Metadata{}
+	for k, v := range r.Metadata {
+		md[k] = v
+	}
+	return ledgercontroller.Parameters[ledgercontroller.RevertTransaction]{DryRun: r.DryRun, IdempotencyKey: r.IK,
+		Input: ledgercontroller.RevertTransaction{TransactionID: r.ID, Force: r.Force, AtEffectiveDate: r.AtEffectiveDate, Metadata: md}}
+}
